@@ -205,7 +205,7 @@ def run(ctx):
                 key = '%s|%s' % (q, r['exit'])
                 ctx.ob('TXN', key, cfg, False, 'failure exit `%s` reached with storage DIRTY (last dirtying event %s)' % (
                     r['exit'], r['source']), assumed=c03.ASSUMED.get(key), site='%s:%s' % (b.file, r['line']))
-        ctx.floor('flip owners', 15, len(own), cfg)
+        ctx.floor('flip owners', 12, len(own), cfg)
         if cfg == ctx.cfgs[0]:
             for o in ctx.obligations[:8]:
                 ctx.sample({'rule': o['rule'], 'key': o['key'], 'status': o['status'], 'detail': o['detail'][:160]})
@@ -328,4 +328,4 @@ def _hashcanon(ctx, cfg, prog, mod):
                                         'the index builder and this site can disagree on the hash of the same simplex once slot-map '
                                         'versions differ (recycled vertex slot)' % ('; ordered by VertexKey::cmp instead' if keysort else '')),
                    site='%s:%d' % (b.file, t.line))
-    ctx.floor('simplex hash computations in the flip code', 5, n, cfg)
+    ctx.floor('simplex hash computations in the flip code', 3, n, cfg)
